@@ -5,6 +5,7 @@
 //!   dmnsim selftest determinism [ID...] [--runs N]
 //!   dmnsim child ... / exec-plan ...      (internal)
 
+mod c12;
 mod c13;
 mod c17;
 mod c18;
@@ -25,6 +26,7 @@ use std::time::Duration;
 
 fn lookup(id: &str) -> Option<&'static dyn Sim> {
   match id {
+    "C12" => Some(&c12::C12),
     "C13" => Some(&c13::C13),
     "C17" => Some(&c17::C17),
     "C18" => Some(&c18::C18),
@@ -33,7 +35,7 @@ fn lookup(id: &str) -> Option<&'static dyn Sim> {
   }
 }
 
-const ALL: [&str; 4] = ["C13", "C17", "C18", "C20"];
+const ALL: [&str; 5] = ["C12", "C13", "C17", "C18", "C20"];
 
 /// Process time zones of blocks of runs, as POSIX TZ strings (independent of the zoneinfo files):
 /// UTC, Europe/Warsaw, America/New_York, Australia/Lord_Howe (half-hour DST shift), Pacific/Kiritimati (+14).
@@ -115,6 +117,12 @@ fn real_main(args: &[String]) -> i32 {
     }
     "debug-gen" => {
       debug_gen();
+      0
+    }
+    "debug-c12-text" => {
+      let doc: serde_json::Value = serde_json::from_str(&std::fs::read_to_string(&args[1]).unwrap()).unwrap();
+      use std::io::Write;
+      std::io::stdout().write_all(&c12::debug_text(&doc["plan"])).unwrap();
       0
     }
     "debug-feel" => {
@@ -246,7 +254,7 @@ pub fn debug_gen() {
   let t = c20::model_text("gen").unwrap();
   let d = dmntk_model::parse(&t).unwrap();
   let me = dmntk_model_evaluator::ModelEvaluator::new(&d).unwrap();
-  for inv in ["num", "tmp", "rx", "c1", "c2", "c3", "c4", "svc", "tbl", "label", "twice"] {
+  for inv in ["num", "tmp", "rx", "c1", "c2", "c3", "c4", "svc", "tbl", "label", "twice", "rel", "lst", "inv", "fnd"] {
     let ctx = dmntk_feel_evaluator::evaluate_context(&dmntk_feel::Scope::default(), if inv == "label" { r#"{n: 7, t: "ab12_34"}"# } else if inv == "twice" { "{p: 4}" } else { r#"{x: 7, s: "ab12_34"}"# }).unwrap();
     println!("{} = {}", inv, me.evaluate_invocable(inv, &ctx));
   }
